@@ -61,7 +61,7 @@ LogsBy(log, p) == {i \in 1..Len(log) : log[i].by = p}
 AckPersisted(log, resp) ==
     \A p \in DOMAIN resp :
         resp[p].st = "ok" /\ ~resp[p].dry =>
-            \E i \in 1..Len(log) : log[i].id = resp[p].logid /\ log[i].txid = resp[p].txid
+            \E i \in 1..Len(log) : log[i].txid = resp[p].txid
                                    /\ (log[i].by = p \/ (log[i].ik # "" /\ log[i].ik = resp[p].ik))
 
 RejectedLeavesNothing(log, resp) ==
@@ -81,7 +81,7 @@ IkSameOutcome(resp) ==
     \A p, q \in DOMAIN resp :
         (resp[p].st = "ok" /\ resp[q].st = "ok" /\ resp[p].ik # "" /\ resp[p].ik = resp[q].ik
          /\ ~resp[p].dry /\ ~resp[q].dry)
-            => (resp[p].logid = resp[q].logid /\ resp[p].txid = resp[q].txid)
+            => resp[p].txid = resp[q].txid
 
 \* ---- C10: revert is an exact, once-only inverse -----------------------------
 RECURSIVE ReversePostings(_)
